@@ -114,6 +114,10 @@ pub(crate) fn reset() {
     RUNTIME_DROPPED.with(|r| r.set(false));
     LATE_IO.with(|l| l.set(0));
 }
+pub(crate) fn clear_after_finish() {
+    let old = NET.with(|n| std::mem::take(&mut *n.borrow_mut()));
+    drop(old);
+}
 pub fn take_udp_log() -> UdpLog {
     NET.with(|n| std::mem::take(&mut n.borrow_mut().log))
 }
